@@ -565,3 +565,58 @@ SPECS["C03"] = CheckSpec(
     technique="exhaustive response enumeration + deviation-bounded DFS over transport faults on the real FSM (ENVX-a)",
     design_ref="DESIGN.md §3 C03", engine="ENVX",
 )
+
+
+# --------------------------------------------------------------------------- C15 (MGRX)
+C15_BUILD = dict(flavour="asan", name="c15_mgr", harness_srcs=["c15_mgr.c"],
+                 exclude_lib=["rtrlib/pfx/trie/trie-pfx.c", "rtrlib/spki/hashtable/ht-spkitable.c"],
+                 extra_ldflags=["-Wl,--wrap=rtr_start,--wrap=rtr_stop,--wrap=lrtr_dbg"])
+
+
+def c15_jobs(tier, repo):
+    q = tier == "quick"
+    cfgs = [("1", "5", 10 if q else 14, ["--malformed"]),
+            ("2", "5", 8 if q else 10, []),
+            ("1,1", "1,2", 9 if q else 12, []),
+            ("1,1", "2,1", 9 if q else 12, ["--spare-dup"]),
+            ("2,1", "1,2", 7 if q else 9, []),
+            ("2,1", "2,1", 7 if q else 9, []),
+            ("1,2", "1,2", 7 if q else 9, ["--spare-dup"]),
+            ("1,1,1", "1,2,3", 6 if q else 8, []),
+            ("1,1,1", "3,1,2", 6 if q else 8, ["--spare-dup"]),
+            ("1,1,1", "2,3,1", 6 if q else 8, []),
+            ("2,1,1", "2,3,1", 5 if q else 7, []),
+            ("1,2,2", "3,2,1", 5 if q else 7, [])]
+    jobs = [Job("c15_mgr", C15_BUILD, ["--groups=" + g, "--prefs=" + p, "--max-depth=%d" % d] + x,
+                "groups[%s] prefs[%s] depth<=%d %s" % (g, p, d, " ".join(x))) for g, p, d, x in cfgs]
+    # conformance of the socket-lifecycle relation with the real FSM
+    jobs.append(Job("envx", ENVX_BUILD, ["--prop=C15R", "--max-depth=%d" % (7 if q else 9)],
+                    "conformance: every state change of the real FSM is in the relation R"))
+    return jobs
+
+
+SPECS["C15"] = CheckSpec(
+    "C15", c15_jobs,
+    rule="explicit-state BFS over the real connection manager: configurations of 1..3 groups x 1..2 sockets with the "
+         "preferences in several input orders; transitions = one socket state change permitted by the relation R of the "
+         "socket FSM, delivered through the real rtr_change_socket_state (so the real rtr_mgr_cb runs), data expiry of a "
+         "socket, rtr_mgr_add_group (a most-preferred spare, and a duplicate or in-between preference), "
+         "rtr_mgr_remove_group of every preference (<= 2 add/remove per history); rtr_start / rtr_stop are link-time "
+         "stubs with the field effects of the real functions; every transition checks the clauses of the statement "
+         "(status callbacks, started/stopped sockets, list order, API return codes); malformed configurations through "
+         "rtr_mgr_init; a separate job explores the real FSM (ENVX) and checks that each of its state changes is in R",
+    assumptions=["'reported ESTABLISHED' is judged on reports of a status change to ESTABLISHED (the manager repeats the "
+                 "unchanged status on every socket event, also after a socket's data expired): DESIGN §5",
+                 "socket threads are replaced by a sequential stub: interleavings of two sockets' callbacks inside one "
+                 "manager call are not explored",
+                 "histories are depth-bounded (bounds in bounds_and_caps)"],
+    counters_map={"executions": ["transitions"], "distinct": ["states"]},
+    level_text="Explicit-state model checking of the real manager callback over all histories of socket state changes "
+               "and group add/remove up to the depth bound, for every small configuration; the failover clauses are "
+               "transition invariants evaluated on every explored transition.",
+    level_note="Real rtr_mgr.c, real rtr_change_socket_state; rtr_start/rtr_stop wrapped at link time. The relation R "
+               "(src/common/fsm_relation.h) is validated against the real FSM by the conformance job on every run.",
+    technique="explicit-state BFS over events delivered to the real manager callback (MGRX) + conformance run of the "
+              "lifecycle relation against the real FSM",
+    design_ref="DESIGN.md §3 C15", engine="MGRX",
+)
